@@ -161,15 +161,10 @@ def main(tier):
                 "fields": bytes_fields, "expected_tags": want})
             # K8
             p2 = st.ret_probes(j, "high_low::power2round")
-            okp = len(p2) == 1
-            rng_seen = None
-            if okp:
-                args = p2[0]["data"]["args"]
-                calls_fr = j["calls"].get("helpers::full_reduce32", 0)
-                rng_seen = args[:200]
-            ob(okp and j["calls"].get("helpers::full_reduce32", 0) >= 256 * k, "K8:power2round-once-on-reduced-t:%s" % ent,
-               {"rule": "K8 Power2Round is applied once, after full_reduce32 of all 256*k coefficients of t", "entry": j["root"], "set": s,
-                "power2round_calls": len(p2), "full_reduce32_calls": j["calls"].get("helpers::full_reduce32", 0)})
+            p2bad = [x for x in r["sites"] if x["inst"].startswith("high_low::power2round") and x["violated"] and "power2round input" in str(x.get("msg"))]
+            ob(len(p2) == 1 and not p2bad, "K8:power2round-once-on-reduced-t:%s" % ent,
+               {"rule": "K8 Power2Round is applied exactly once and its input-range self-check (all coefficients in [0, q)) is discharged", "entry": j["root"], "set": s,
+                "power2round_calls": len(p2), "input_range_obligation_violated": bool(p2bad)})
             if ent == "seed":
                 samples.append({"set": s, "seed_expansion": seen, "byte_fields": bytes_fields, "hash_instances": len(a)})
     ksamples, kstats = c15.analyse(rep, ob, tier, {"three_bytes", "half_byte", "power2round"}, prefix="K7:")
